@@ -641,6 +641,40 @@ func probes(e *emitter) {
 				}
 			}
 		}
+		if n >= 2 && on("ord") {
+			// "greater at position j, smaller right after it": both directions are decided at position j, so with
+			// j = 0 the comparison is cheap at EVERY arity (the exponential cost only comes from long equal
+			// prefixes); for small arities every j is probed. Catches a dead or mistyped "head is greater" guard
+			// of one TupleN (all larger arities recurse through it).
+			maxJ := 0
+			if n <= maxOrdArity+3 {
+				maxJ = n - 2
+			}
+			for j := 0; j <= maxJ; j++ {
+				_, hi := mk("int", func(i int) *Sx {
+					switch i {
+					case j:
+						return I(2)
+					case j + 1:
+						return I(1)
+					}
+					return I(0)
+				})
+				_, lo := mk("int", func(i int) *Sx {
+					switch i {
+					case j:
+						return I(1)
+					case j + 1:
+						return I(2)
+					}
+					return I(0)
+				})
+				for _, o := range []string{"less", "compare", "lesseq", "min", "max"} {
+					e.op(A(o), inst, hi, lo)
+					e.op(A(o), inst, lo, hi)
+				}
+			}
+		}
 		if n >= 2 && on("mon") {
 			minst, x := mk("string", func(i int) *Sx { return mkStr("a") })
 			_, y := mk("string", func(i int) *Sx { return mkStr("b") })
@@ -800,6 +834,7 @@ func main() {
 	}
 	e := &emitter{sink: sink}
 	probes(e)
+	floatProbes(e)
 	for i := 0; i < *n; i++ {
 		genCase(r, e)
 	}
